@@ -109,13 +109,28 @@ func c10QueueOrder(seq []int, cascades int) []string {
 
 // (ii) rule order and fail-on-first-error through ProcessEvent.
 func c10RuleOrder(prios [3]int, failMask int, fofe bool, addFirst bool) []string {
+	return c10RuleOrderX(prios, failMask, fofe, addFirst, -1, 0)
+}
+
+// c10RuleOrderX: xpos >= 0 inserts a fourth rule that matches the event but is
+// out of the cascade's scope before the xpos-th rule (insertion order is the
+// order in which the index returns candidates).
+func c10RuleOrderX(prios [3]int, failMask int, fofe bool, addFirst bool, xpos int, xprio int) []string {
 	var probs []string
 	proc := engine.NewProcessor(1)
 	proc.SetFailOnFirstErrorInTriggerSequence(fofe)
 	var ran []int
 	childRan := 0
+	xran := 0
+	addX := func() {
+		proc.AddRule(&engine.Rule{Name: "x-out-of-scope", KindMatch: []string{"ev"}, ScopeMatch: []string{"admin"}, Priority: xprio,
+			Action: func(p engine.Processor, m engine.Monitor, e *engine.Event, tid uint64) error { xran++; return nil }})
+	}
 	for i := 0; i < 3; i++ {
 		i := i
+		if xpos == i {
+			addX()
+		}
 		proc.AddRule(&engine.Rule{Name: fmt.Sprintf("r%d", i), KindMatch: []string{"ev"}, ScopeMatch: []string{}, Priority: prios[i],
 			Action: func(p engine.Processor, m engine.Monitor, e *engine.Event, tid uint64) error {
 				ran = append(ran, i)
@@ -133,13 +148,25 @@ func c10RuleOrder(prios [3]int, failMask int, fofe bool, addFirst bool) []string
 			childRan++
 			return nil
 		}})
+	if xpos == 3 {
+		addX()
+	}
 	proc.Start()
-	rm := proc.NewRootMonitor(nil, nil)
+	var rm *engine.RootMonitor
+	if xpos >= 0 {
+		rm = proc.NewRootMonitor(nil, engine.NewRuleScope(map[string]bool{"": true, "admin": false}))
+	} else {
+		rm = proc.NewRootMonitor(nil, nil)
+	}
 	ev := engine.NewEvent("e", []string{"ev"}, nil)
 	rm.Activate(ev)
 	errs := proc.ProcessEvent(999, ev, rm)
+	defer func() { _ = xran }()
 	vsched.Quiesce()
 	proc.Finish()
+	if xran > 0 {
+		probs = append(probs, "a rule that is out of the cascade's scope ran")
+	}
 	// executed order must be ascending in priority
 	for k := 1; k < len(ran); k++ {
 		if prios[ran[k-1]] > prios[ran[k]] {
@@ -396,7 +423,7 @@ func init() {
 			}
 		}})
 	register(&Scenario{Prop: "C10", Name: "rule-order", Quick: 0, Thor: 0, FreeQuick: -1, FreeThor: -1, Horizon: 500000000,
-		Desc: "3 rules x priorities {0,1,2}^3 x failing subset (8) x fail-on-first-error (2) x failing rule adds an event first (2) = 864 cases through ProcessEvent",
+		Desc: "3 rules x priorities {0,1,2}^3 x failing subset (8) x fail-on-first-error (2) x failing rule adds an event first (2) = 864 cases through ProcessEvent, plus the same with a fourth matching rule that is out of the cascade's scope inserted at every position with every priority (5184 cases)",
 		Make: func() (func(), func(e *vsched.Exec) (string, *vsched.Violation)) {
 			var probs []string
 			n := 0
@@ -408,6 +435,19 @@ func init() {
 						for c := 0; c < 3; c++ {
 							for mask := 0; mask < 8; mask++ {
 								for _, fofe := range []bool{false, true} {
+									// an out-of-scope candidate at every insertion position
+									for xpos := 0; xpos <= 3; xpos++ {
+										for xprio := 0; xprio < 3; xprio++ {
+											n++
+											for _, p := range c10RuleOrderX([3]int{a, b, c}, mask, fofe, false, xpos, xprio) {
+												k := "oos:" + strings.Fields(p)[0] + strings.Fields(p)[1]
+												if !seen[k] {
+													seen[k] = true
+													probs = append(probs, fmt.Sprintf("%s [priorities %v failing mask %03b fofe=%v, out-of-scope rule of priority %d inserted at position %d]", p, []int{a, b, c}, mask, fofe, xprio, xpos))
+												}
+											}
+										}
+									}
 									for _, add := range []bool{false, true} {
 										n++
 										for _, p := range c10RuleOrder([3]int{a, b, c}, mask, fofe, add) {
